@@ -19,6 +19,10 @@ def pel(params, batch, rng):
   return (batch['x'] @ params['w'] + params['b'] - batch['y']) ** 2
 
 
+def pel_nested(params, batch, rng):
+  return (batch['x'] @ params['lin']['w'] + params['lin']['b'] - batch['y']) ** 2
+
+
 def snapshot(x):
   """Deep value snapshot of a pytree-ish python structure."""
   if isinstance(x, dict):
@@ -63,6 +67,9 @@ def algorithms():
           pel, sgd, mom, hp, php, [0.5, 0.5], 0.1, domain_window_size=2, init_domain_window=[1., 1.]),
       'apfl': lambda: apfl.adaptive_personalized_federated_learning(grad_fn, sgd, mom, hp, 0.5),
       'hyp_cluster': lambda: hyp_cluster.hyp_cluster(pel, sgd, mom, php, hp),
+      # a wrapped server optimizer and plain nested dict params (haiku-style {module: {name: array}})
+      'fed_avg_ignore': lambda: fed_avg.federated_averaging(
+          models.grad(pel_nested), sgd, optimizers.ignore_grads_haiku(mom, [('lin', 'b')]), hp),
   }
 
 
@@ -70,7 +77,9 @@ def check_pure(inp):
   name, rounds = inp['alg'], inp['rounds']
   alg = algorithms()[name]()
   params = {'w': jnp.asarray(np.array([0.3, -0.2], np.float32)), 'b': jnp.asarray(np.float32(0.1))}
-  if name == 'hyp_cluster':
+  if name == 'fed_avg_ignore':
+    state = alg.init({'lin': {'w': params['w'], 'b': params['b']}})
+  elif name == 'hyp_cluster':
     state = alg.init([params, jax.tree_util.tree_map(lambda x: x + 1.0, params)])
   else:
     state = alg.init(params)
@@ -99,7 +108,7 @@ def check_pure(inp):
 
 
 def sweep_pure(tier, seed):
-  for name in ('fed_avg', 'fed_prox', 'mime', 'mime_lite', 'agnostic', 'apfl', 'hyp_cluster'):
+  for name in ('fed_avg', 'fed_prox', 'mime', 'mime_lite', 'agnostic', 'apfl', 'hyp_cluster', 'fed_avg_ignore'):
     yield dict(alg=name, rounds=[[3, 2], [2, 0, 4], [3, 2]])
   for a in ('uniform', 'arithmetic', 'rotated', 'drive', 'terngrad'):
     yield dict(alg='agg:' + a, rounds=4)
